@@ -11,6 +11,7 @@ using namespace vh;
 static Ctx C;
 
 struct Node : public MockN2k {
+  uint64_t name(int i) { return Devices[i].DeviceInformation.GetName(); }
   unsigned char src(int i) { return Devices[i].N2kSource; }
 };
 static std::set<unsigned> ownedBefore;   // addresses of our devices before the current op
@@ -215,6 +216,39 @@ static void isoStuff() {
   else if (k == 2) { auto nm = le(R->chance(1, 2) ? 0 : name(), 8); std::vector<unsigned char> pl = nm; pl.push_back((unsigned char)(R->chance(1, 3) ? R->range(250, 255) : R->below(252))); fastPacket(65240UL, 2, peer(), 255, pl); }
   else frame(mkId(6, 60928UL, R->chance(1, 2) ? N->src((int)R->below(nDev)) : (unsigned)R->below(256), 255), dlc(), le(name(), 8));
 }
+
+// transport-protocol broadcast (BAM) of a short message, well formed
+static void bamTo(unsigned src, unsigned long pgn, const std::vector<unsigned char> &pl) {
+  int pk = ((int)pl.size() + 6) / 7;
+  std::vector<unsigned char> cm = {32, (unsigned char)pl.size(), (unsigned char)(pl.size() >> 8), (unsigned char)pk, 0xff, (unsigned char)pgn, (unsigned char)(pgn >> 8), (unsigned char)(pgn >> 16)};
+  frame(mkId(7, 60416UL, src, 255), 8, cm);
+  for (int k = 1; k <= pk; k++) { std::vector<unsigned char> dt(8, 0xff); dt[0] = (unsigned char)k; for (int j = 0; j < 7 && (size_t)((k - 1) * 7 + j) < pl.size(); j++) dt[1 + j] = pl[(k - 1) * 7 + j]; frame(mkId(7, 60160UL, src, 255), 8, dt); }
+}
+// C04, directed: one device of the node changes its address (lost arbitration, or a commanded address carrying its own NAME),
+// then every kind of request is addressed to its NEW address inside the 250 ms claim window - nothing but address claims may leave
+static void claimWindowProbe() {
+  int d = (int)R->below(nDev); unsigned old = N->src(d);
+  if (old > 251) return;
+  C.count("claim_window_probes");
+  if (R->chance(1, 2)) frame(mkId(6, 60928UL, old, 255), 8, le(1 + R->below(1000), 8));
+  else { std::vector<unsigned char> pl = le(N->name(d), 8); pl.push_back((unsigned char)(R->chance(1, 8) ? R->range(252, 255) : R->range(60, 200))); bamTo(peer(), 65240UL, pl); }
+  if (N->src(d) != old) C.count("claim_window_probes_moved");
+  int m = (int)R->range(3, 12);
+  for (int j = 0; j < m; j++) {
+    unsigned na = R->chance(1, 5) ? 255u : (unsigned)N->src(d); unsigned k = (unsigned)R->below(8);
+    unsigned long want[] = {126464UL, 126996UL, 126998UL, 126993UL, 60928UL, 127250UL};
+    if (k <= 1) frame(mkId(6, 59904UL, peer(), na), 3, le(want[R->below(6)], 3));
+    else if (k <= 3) {   // group-function request; for 126464 with the selector pair (field 1 = transmit/receive list)
+      unsigned long p = R->chance(1, 2) ? 126464UL : want[R->below(4)];
+      std::vector<unsigned char> pl = {0, (unsigned char)p, (unsigned char)(p >> 8), (unsigned char)(p >> 16), 0xff, 0xff, 0xff, 0xff, 0xff, 0xff};
+      if (p == 126464UL && R->chance(3, 4)) { pl.push_back(1); pl.push_back(1); pl.push_back((unsigned char)R->below(2)); } else pl.push_back(0);
+      fastPacket(126208UL, 3, peer(), na, pl);
+    }
+    else if (k == 4) { char s[96]; snprintf(s, sizeof s, "send %d %d %lu %u %d", d, (int)R->below(2), R->chance(1, 2) ? 126996UL : 130900UL, R->chance(1, 2) ? peer() : 255u, (int)R->range(0, 60)); exec(s); }
+    else if (k == 5) { std::vector<unsigned char> cm = {16, 20, 0, 3, 0xff, 0x00, 0xef, 0x01}; frame(mkId(7, 60416UL, peer(), N->src(d)), 8, cm); }   // RTS to the moving device
+    else exec("t " + std::to_string(R->range(1, 60)));
+  }
+}
 static void garbage() { frame((unsigned long)R->next() & (R->chance(1, 4) ? 0xFFFFFFFFUL : 0x1FFFFFFFUL), (int)R->below(9), rnd(8)); }
 
 static void oneCase() {
@@ -231,6 +265,7 @@ static void oneCase() {
       exec("acc 1"); exec("poll"); exec("poll");
       continue;
     }
+    if (R->chance(1, 25)) { claimWindowProbe(); continue; }
     if (k < 18) tpSession(R->chance(3, 4));
     else if (k < 26) tpControl();
     else if (k < 38) groupFunction();
